@@ -370,7 +370,7 @@ mut("c10-only-valueerror-guarded", "C10", "element construction is guarded for V
                         raise e
                     elif on_error == "stop":
                         return root
-                    continue''',
+                    if root is None''',
 '''                except (
                     ValueError,
                     OverflowError,
@@ -381,7 +381,7 @@ mut("c10-only-valueerror-guarded", "C10", "element construction is guarded for V
                         raise e
                     elif on_error == "stop":
                         return root
-                    continue''')
+                    if root is None''')
 mut("c10-failed-shape-returns", "C10", "a shape that cannot be built ends the parse (return root) instead of being skipped",
 '''                            if s is None:
                                 # s was not established we continue without it.
@@ -390,23 +390,21 @@ mut("c10-failed-shape-returns", "C10", "a shape that cannot be built ends the pa
                                 # s was not established we continue without it.
                                 return root''')
 mut("c10-double-pop", "C10", "a skipped element pops the inheritance stack at once and again at its end event (later siblings inherit from the wrong ancestor)",
-'''                    # The attributes of this element are in error, it is not rendered.
-                    if on_error == "raise":
-                        raise e
-                    elif on_error == "stop":
-                        return root
+'''                        return SVG()
                     continue
                 # If no root was established, s is root.''',
-'''                    # The attributes of this element are in error, it is not rendered.
-                    if on_error == "raise":
-                        raise e
-                    elif on_error == "stop":
-                        return root
+'''                        return SVG()
                     if len(stack) > 2:
                         values = stack[-2][1]
                         stack[-1] = stack[-2]
                     continue
                 # If no root was established, s is root.''')
+mut("c10-failed-root-leaves-no-tree", "C10", "an outermost svg that cannot be processed is skipped like any element: None or the first child is returned (the pinned tree's defect)",
+'''                    if root is None and SVG_NAME_TAG == tag:
+                        # The outermost svg itself: nothing of the document is rendered, it is still a document.
+                        return SVG()''',
+'''                    if False:
+                        return SVG()''')
 mut("c10-dangling-use-raises", "C10", "a use whose target does not exist is no longer tolerated",
 '''                        target = event_defs.get(url[1:])  # None: failed to find link.''',
 '''                        target = event_defs[url[1:]]''')
@@ -499,6 +497,11 @@ mut("c20-arc-conjugate-radii-kept", "C20", "an arc multiplied by a non-similarit
         return self''',
 '''                self.sweep = -self.sweep
         return self''')
+mut("c20-unrendered-root-not-resolved", "C20", "a built root whose size has units is written without undoing the viewport transform its reader assumes (the pinned tree's defect)",
+'''                if not outermost:
+                    raise''',
+'''                if True:
+                    raise''')
 mut("c20-stale-id-kept", "C20", "an id cleared on the object leaves the source's id in the written text (the pinned tree's defect)",
 '''            xml_tree.set(SVG_ATTR_ID, str(node.id))
         else:
